@@ -438,9 +438,7 @@ func spaces(tier string) []kit.Space {
 			space("3-multi-file", aspect, multi, true, slots),
 			space("4-corpus", aspect, corpus, true, slots),
 		)
-		if aspect == "clone" {
-			sps = append(sps, space("5-type-checked", aspect, astgen.Typed(), true, slots))
-		}
+		sps = append(sps, space("5-type-checked", aspect, astgen.Typed(), true, slots))
 	}
 	return sps
 }
